@@ -783,3 +783,70 @@ def rt_fallback(req):
 
 
 RT['fallback'] = rt_fallback
+
+
+# ----------------------------------------------------------------------------- C06: deterministic probes
+_CHAIN_SRC = """
+import functools
+from sigtools import modifiers
+def logged(f, *args, **kwargs): return f(*args, **kwargs)
+def traced(f, *args, **kwargs): return f(*args, **kwargs)
+def inner(x, y=2, *, z): return (x, y, z)
+def m1(a, *args, **kwargs): return logged(inner, *args, **kwargs)
+def m2(b, *args, **kwargs): return logged(m1, *args, **kwargs)
+def m3(c, *args, **kwargs): return logged(m2, *args, **kwargs)
+def m4(d, *args, **kwargs): return logged(m3, *args, **kwargs)
+def m5(e, *args, **kwargs): return logged(m4, *args, **kwargs)
+def n1(a, *args, **kwargs): return logged(inner, *args, **kwargs)
+def n2(b, *args, **kwargs): return traced(n1, *args, **kwargs)
+def n3(c, *args, **kwargs): return logged(n2, *args, **kwargs)
+def n4(d, *args, **kwargs): return traced(n3, *args, **kwargs)
+@modifiers.kwoargs('k')
+def kw(f, a, k=3, *args, **kwargs): return f(*args, **kwargs)
+def kw_native(f, a, *args, k=3, **kwargs): return f(*args, **kwargs)
+@modifiers.posoargs('f', 'a')
+def po(f, a, *args, **kwargs): return f(*args, **kwargs)
+def po_native(f, a, /, *args, **kwargs): return f(*args, **kwargs)
+@modifiers.autokwoargs
+def au(f, a, k=3, *args, **kwargs): return f(*args, **kwargs)
+"""
+
+
+def rt_probes_c06(req):
+    """(1) one forwarding helper used at every level of a chain of wrappers: each level's discovered signature equals the
+    explicit declaration forwards(own, <signature of the level below>) -- at any depth; (2) a modifiers-decorated forwarding
+    wrapper whose callee is bound by a functools.partial object is analysed like its natively written twin"""
+    mod, fname = progs.load_module(_CHAIN_SRC)
+    problems = []
+    try:
+        with warnings.catch_warnings():
+            warnings.simplefilter('ignore')
+            for fam in ('m', 'n'):
+                below = signatures.signature(mod.inner)
+                for k in range(1, 6 if fam == 'm' else 5):
+                    f = getattr(mod, '%s%d' % (fam, k))
+                    want = signatures.forwards(signatures.signature(f), below, 0, use_varargs=True, use_varkwargs=True)
+                    got = sigtools.signature(f)
+                    if str(got) != str(want):
+                        problems.append('chain-differs-from-declaration: level %d of a chain of wrappers going through one helper function: '
+                                        'discovered %s, declared %s' % (k, got, want))
+                        break
+                    gs = {n: [getattr(x, '__name__', x) for x in v] for n, v in got.sources.items() if n != '+depths'}
+                    if any('inner' not in v for n, v in gs.items() if n in ('x', 'y', 'z')):
+                        problems.append('chain-provenance: level %d: sources %s do not credit inner' % (k, gs))
+                        break
+                    below = want
+            for dec, nat in (('kw', 'kw_native'), ('po', 'po_native'), ('au', 'kw_native')):
+                for extra in ((), (1,)):
+                    pd = functools.partial(getattr(mod, dec), mod.inner, *extra)
+                    pn = functools.partial(getattr(mod, nat), mod.inner, *extra)
+                    a, b = str(sigtools.signature(pd)), str(sigtools.signature(pn))
+                    if a != b:
+                        problems.append('hint-partial-differs: functools.partial(%s, inner%s) is reported as %s, its natively written twin as %s' % (
+                            dec, ''.join(', %r' % x for x in extra), a, b))
+    finally:
+        progs.unload(fname)
+    return ('ok', tuple(problems[:3]), 'probed')
+
+
+RT['probes_c06'] = rt_probes_c06
